@@ -63,7 +63,10 @@ Definition clocal (x : ident) (C : cscopes) : option (ty * bool) :=
 Definition rargs_list (r : rargs) : list expr :=
   match r with R1 e => [e] | R2 a z => [a; z] | R3 a z s => [a; z; s] end.
 
-Fixpoint ccheck_stmt (C : cscopes) (s : stmt) {struct s} : cscopes * nat :=
+(* [ev]: does check_if_stmt visit the elif branches?  false on the tree this model was written
+   against (finding elif-unchecked); true once the pending `fix: type-check the conditions and bodies
+   of elif branches` is merged.  The correspondence run probes the real checker and picks the variant. *)
+Fixpoint ccheck_stmt (ev : bool) (C : cscopes) (s : stmt) {struct s} : cscopes * nat :=
   match s with
   | SAssign k x ann e =>
       let '(t, n) := ccheck C e in
@@ -92,21 +95,21 @@ Fixpoint ccheck_stmt (C : cscopes) (s : stmt) {struct s} : cscopes * nat :=
   | SIf c th el =>
       let '(tc, n) := ccheck C c in
       let n1 := (n + b2n (negb (compat tc TyBool)))%nat in
-      let '(_, n2) := ccheck_block ([] :: C) th in
-      (C, (n1 + n2 + ccheck_els C el)%nat)
+      let '(_, n2) := ccheck_block ev ([] :: C) th in
+      (C, (n1 + n2 + ccheck_els ev C el)%nat)
   | SWhile c b =>
       let '(tc, n) := ccheck C c in
       let n1 := (n + b2n (negb (compat tc TyBool)))%nat in
-      let '(_, n2) := ccheck_block ([] :: C) b in
+      let '(_, n2) := ccheck_block ev ([] :: C) b in
       (C, (n1 + n2)%nat)
   | SFor x r b =>
       let n := fold_right (fun e acc => (snd (ccheck C e) + acc)%nat) O (rargs_list r) in
-      let '(_, n2) := ccheck_block ([(x, (TyInt, false))] :: C) b in
+      let '(_, n2) := ccheck_block ev ([(x, (TyInt, false))] :: C) b in
       (C, (n + n2)%nat)
   | SPrint e => (C, snd (ccheck C e))
   | SPass | SBreak | SContinue => (C, O)
   end
-with ccheck_block (C : cscopes) (b : block) {struct b} : cscopes * nat :=
+with ccheck_block (ev : bool) (C : cscopes) (b : block) {struct b} : cscopes * nat :=
   match b with
   | BNil => (C, O)
   | BCons s r =>
@@ -115,14 +118,20 @@ with ccheck_block (C : cscopes) (b : block) {struct b} : cscopes * nat :=
       (S2, (n1 + n2)%nat)
   end
 (* only the final else body is visited: elif branches are skipped *)
-with ccheck_els (C : cscopes) (el : els) {struct el} : nat :=
+with ccheck_els (ev : bool) (C : cscopes) (el : els) {struct el} : nat :=
   match el with
   | ENone => O
-  | EElse b => snd (ccheck_block ([] :: C) b)
-  | EElif _ _ rest => ccheck_els C rest
+  | EElse b => snd (ccheck_block ev ([] :: C) b)
+  | EElif c b rest =>
+      if ev then
+        let '(tc, n) := ccheck C c in
+        (n + b2n (negb (compat tc TyBool)) + snd (ccheck_block ev ([] :: C) b) + ccheck_els ev C rest)%nat
+      else ccheck_els ev C rest
   end.
 
-Definition check_errors (c : fcase) : nat :=
-  snd (ccheck_block [map (fun p => (p, (TyInt, false))) (params c)] (body c)).
+Definition check_errors (ev : bool) (c : fcase) : nat :=
+  snd (ccheck_block ev [map (fun p => (p, (TyInt, false))) (params c)] (body c)).
 
-Definition check_fn (c : fcase) : bool := Nat.eqb (check_errors c) O.
+Definition check_fn_gen (ev : bool) (c : fcase) : bool := Nat.eqb (check_errors ev c) O.
+Definition check_fn (c : fcase) : bool := check_fn_gen false c.          (* the current tree *)
+Definition check_fn_elif (c : fcase) : bool := check_fn_gen true c.      (* after the elif fix *)
